@@ -409,7 +409,8 @@ impl Format {
                         365.0
                     };
                 // A month or a day given next to the day of year is not used, but it must still be a valid date
-                // (a parsed month or day is never zero).
+                // (a parsed month or day is never zero). The time of day is validated on 1 January, which is never
+                // a leap second day: the unused month and day must not decide whether second 60 exists.
                 let month = if decomposed[1] == 0 { 1 } else { decomposed[1] };
                 let day = if decomposed[2] == 0 { 1 } else { decomposed[2] };
                 if !(1.0..days_in_year + 1.0).contains(&days)
@@ -417,6 +418,15 @@ impl Format {
                         decomposed[0],
                         month.try_into().unwrap(),
                         day.try_into().unwrap(),
+                        0,
+                        0,
+                        0,
+                        0,
+                    )
+                    || !crate::epoch::is_gregorian_valid(
+                        decomposed[0],
+                        1,
+                        1,
                         decomposed[3].try_into().unwrap(),
                         decomposed[4].try_into().unwrap(),
                         decomposed[5].try_into().unwrap(),
